@@ -505,7 +505,7 @@ def fingerprint(c: Any, deep: bool, depth: int = 0, top: bool = True) -> Any:
             if not deep and not top:
                 return ['local-element', c.elem.get('name'), _occ(c)]
             t = getattr(c, 'type', None)
-            return [cn, c.name, _occ(c) if not top else None, getattr(c, 'nillable', None), getattr(c, 'abstract', None),
+            return [cn, c.name, _occ(c), getattr(c, 'nillable', None), getattr(c, 'abstract', None),
                     getattr(c, 'default', None), getattr(c, 'fixed', None), _sset(getattr(c, 'block', None)),
                     _sset(getattr(c, 'final', None)), getattr(c, 'substitution_group', None),
                     ['ref', t.name] if (t is not None and t.parent is None and t.name) else fingerprint(t, deep, depth + 1, False),
@@ -519,7 +519,7 @@ def fingerprint(c: Any, deep: bool, depth: int = 0, top: bool = True) -> Any:
                 return ['group-ref', c.name, _occ(c)]
             if getattr(c, 'ref', None) is not None and not top:
                 return ['group-ref', c.name, _occ(c)]
-            return [cn, c.name, c.model, _occ(c) if not top else None, getattr(c, 'mixed', None),
+            return [cn, c.name, c.model, _occ(c), getattr(c, 'mixed', None),
                     [fingerprint(x, deep, depth + 1, False) for x in c]]
         if isinstance(c, XsdComplexType):
             if not top and c.parent is None and c.name:
